@@ -51,6 +51,33 @@ def sub(seed: int, k: int) -> int:
     return (seed * 1_000_003 + k * 7919) % (2**31 - 1)
 
 
+# Spec bundle: declarative, stateless-by-contract configuration objects (fault specs, node-name lists, constant latencies,
+# sharding strategies, resolvers, retention / compaction / sync policies).  A user who runs a scenario repeatedly defines
+# them once and builds the model again from the same objects.  simkit.c03_exec sets SPEC_STORE per job: None = every build
+# creates fresh objects; a dict pair = objects are created on the first build in this interpreter and reused afterwards.
+SPEC_STORE = None          # {"seeded": {...}, "shared": {...}} or None
+
+
+def spec(name: str, factory):
+    """An object that belongs to this model *and its seeds* (e.g. RandomPartition(..., seed=s))."""
+    if SPEC_STORE is None:
+        return factory()
+    d = SPEC_STORE["seeded"]
+    if name not in d:
+        d[name] = factory()
+    return d[name]
+
+
+def shared(name: str, factory):
+    """An object that only depends on the model's structure (e.g. the list of node names): also shared with a sibling."""
+    if SPEC_STORE is None:
+        return factory()
+    d = SPEC_STORE["shared"]
+    if name not in d:
+        d[name] = factory()
+    return d[name]
+
+
 class Proc(Entity):
     """Entity whose handler is a function given at construction (user glue code)."""
 
@@ -1492,7 +1519,22 @@ def build_load_balancer(p, seed):
 
 def _gen_sketch(rng):
     return {"items": rng.choice([30, 200]), "rate": rng.choice([300.0, 600.0]), "horizon": 2.0, "width": rng.choice([16, 64, 272]),
-            "depth": rng.choice([2, 4]), "k": rng.choice([5, 10]), "weights": rng.random() < 0.5}
+            "depth": rng.choice([2, 4]), "k": rng.choice([5, 10]), "weights": rng.random() < 0.5,
+            "item_kind": rng.choice(ITEM_KINDS)}
+
+
+ITEM_KINDS = ["str", "str", "tuple", "tuple", "dataclass", "frozenset"]
+
+
+import dataclasses as _dc  # noqa: E402
+
+
+@_dc.dataclass(frozen=True)
+class CustomerKey:
+    """A user's composite sketch item (hashable, contains strings)."""
+
+    region: str
+    customer_id: str
 
 
 def _sketch_pipeline(p, seed, which):
@@ -1504,7 +1546,21 @@ def _sketch_pipeline(p, seed, which):
     from happysimulator.sketching import BloomFilter, CountMinSketch, HyperLogLog, ReservoirSampler
 
     customers = words(p["items"], "customer")
-    get = lambda e: e.context.get("customer_id")  # noqa: E731
+    kind = p.get("item_kind", "str")
+    region_of = lambda c: ["us-east", "us-west", "eu", "ap"][len(c) % 4 if c is None else int(c.split(":")[1]) % 4]  # noqa: E731
+
+    def mk_item(c, region=None):
+        """str: the customer id; otherwise a composite hashable containing strings (region derived from the id)."""
+        if c is None or kind == "str":
+            return c
+        r = region_of(c)
+        if kind == "tuple":
+            return (r, c)
+        if kind == "dataclass":
+            return CustomerKey(r, c)
+        return frozenset({r, c})
+
+    get = lambda e: mk_item(e.context.get("customer_id"))  # noqa: E731
     w = (lambda e: 1 + e.context.get("n", 0) % 3) if p["weights"] else None
     cols = {}
     if "cms" in which:
@@ -1539,16 +1595,17 @@ def _sketch_pipeline(p, seed, which):
         if "cms" in cols:
             sk = cols["cms"].sketch
             s.add("cms.items", sk.item_count)
-            s.add("cms.estimates", [(c, sk.estimate(c)) for c in customers[:12]])
-            s.add("cms.total_estimate", sum(sk.estimate(c) for c in customers))
+            s.add("cms.estimates", [(c, sk.estimate(mk_item(c))) for c in customers[:12]])
+            s.add("cms.total_estimate", sum(sk.estimate(mk_item(c)) for c in customers))
         if "hll" in cols:
             s.add("hll.cardinality", cols["hll"].sketch.cardinality())
             bf = cols["bloom"].sketch
             s.add("bloom.fill", bf.fill_ratio)
-            s.add("bloom.contains", [bf.contains(c) for c in customers[:20]])
-            s.add("reservoir.sample", cols["reservoir"].sketch.sample())
+            s.add("bloom.contains", [bf.contains(mk_item(c)) for c in customers[:20]])
+            s.add("reservoir.sample", [_plain_item(x) for x in cols["reservoir"].sketch.sample()])
             tk = cols["topk"]
-            s.add("topk.top", [(e.item, e.count, e.error) for e in tk.top(p["k"])])
+            s.add("topk.top", [(_plain_item(e.item), e.count, e.error) for e in tk.top(p["k"])])
+            s.add("topk.estimates", [tk.estimate(mk_item(c)) for c in customers[:12]])
             s.add("topk.max_error", tk.max_error())
             q = cols["quant"]
             s.add("quant.p50", q.quantile(0.5))
@@ -1558,6 +1615,15 @@ def _sketch_pipeline(p, seed, which):
             s.add(f"{nm}.events", c.events_processed)
         s.add("regions", regions)
     return sim, stats
+
+
+def _plain_item(x):
+    """Items as the harness prints them (a frozenset's own repr is hash-ordered; that is Python, not the library)."""
+    if isinstance(x, frozenset):
+        return sorted(x)
+    if isinstance(x, CustomerKey):
+        return (x.region, x.customer_id)
+    return x
 
 
 @model("sketch_cms", "sketches", _gen_sketch)
@@ -1967,8 +2033,8 @@ VARIANT = {
     "event_log_group": lambda p: f"{p['assign']}-{p['sharding']}",
     "rate_limiters": lambda p: p["kind"],
     "load_balancer": lambda p: "+".join(p["strategies"]),
-    "sketch_cms": lambda p: "weighted" if p["weights"] else "unit",
-    "sketch_others": lambda p: "all",
+    "sketch_cms": lambda p: ("weighted" if p["weights"] else "unit") + ("" if p.get("item_kind", "str") == "str" else "-" + p["item_kind"]),
+    "sketch_others": lambda p: "all" + ("" if p.get("item_kind", "str") == "str" else "-" + p["item_kind"]),
     "industrial_line": lambda p: "line",
     "behaviour_agents": lambda p: f"{p['graph']}-{p['influence']}-{p['model']}",
     "prebuilt_events": lambda p: "post-only" if p["pre"] == 0 and not p.get("once") else "pre+post",
